@@ -226,7 +226,7 @@ PROPS = {
         'verus': [{'spec': 'inttype.spec'}],
         'search_groups': ['inttext'],
         'bounded_search': [('inttext', 'BOUNDED stand-in for the text emission of the *_min()/*_max() accessors (format_number_nicely / add_min_max_fn_if_applicable, String code): generated source of INTEGER (min..max) '
-                                       'as tuple struct and as SEQUENCE field, accessor bodies parsed back and compared with the declared bounds over the boundary grid of the property ({0, +-1, +-2^k, +-2^k+-1 : k <= 63} U small ints; 1910 pairs)')],
+                                       'as tuple struct and as SEQUENCE field, accessor bodies parsed back and compared with the declared bounds over the boundary grid of the property ({0, +-1, +-2^k, +-2^k+-1 : k <= 63} U small ints), plain, extensible and with an open upper bound; 2296 ranges')],
         'kani_quick': [('inttype_fixed_both_bounds', 300, True), ('inttype_extensible', 300, True)],
         'assumptions': [
             'claimed for constraints with a given lower bound (KF-C15-min carve-out: an absent lower bound is a recorded known finding)',
@@ -243,7 +243,7 @@ PROPS = {
         'search_groups': ['resolve'],
         'bounded_search': [('resolve', 'BOUNDED stand-in for the scope lookup and the TryResolve impls (iterator / String code outside both verifiers): the property statement itself on the real parser + resolver -- '
                                        'resolve(module with references) == resolve(module with literals) -- for INTEGER ranges, SIZE ranges, fixed SIZE, DEFAULT over 6 placements (same module, sibling by name, sibling by OID, '
-                                       'OID-carrying sibling imported by name, missing module => Err, non-integer => Err) x decoy module (none / without OID / with OID) x 6 load orders x a grid of bounds (incl. coinciding bounds and 0..MAX): 900 module graphs')],
+                                       'OID-carrying sibling imported by name, missing module => Err, non-integer => Err) x decoy module (none / without OID / with OID) a chain of imports over two hops) x 6 load orders x a grid of bounds (incl. coinciding bounds and 0..MAX): 1050 module graphs')],
         'assumptions': [
             'WHICH declaration a name finds (ResolveScope::value_reference / definition / model_with_imported_item: local before imported, import matched by OID or name, independence of load order) is iterator/String code outside Verus; it is abstracted to the uninterpreted lookups lookup_value / lookup_definition (a Kani run over concrete module graphs does not terminate: measured 1500 s / 10 GB)',
             'Size::try_resolve and Size::reconsider_constraints ARE under contract (every bound is what the resolver yields, unresolvable => Err, result normalised like a literal SIZE); '
@@ -261,8 +261,8 @@ PROPS = {
     'C20': {
         'kani_quick': [('der_length_roundtrip', 300, True), ('der_identifier_roundtrip', 300, True), ('der_boolean', 300, True),
                        ('der_integer_i64_roundtrip', 300, True), ('der_integer_u64_roundtrip', 300, True), ('der_readers_total', 300, True),
-                       ('der_enumerated_roundtrip', 900, True)],
-        'kani_thorough': [('der_enum_wide_roundtrip', 1800, True), ('der_number_tlv_roundtrip', 1800, True)],
+                       ('der_enumerated_roundtrip', 900, True), ('der_number_octet_roundtrip', 900, True)],
+        'kani_thorough': [('der_enum_wide_roundtrip', 1800, True), ('der_number_tlv_roundtrip', 1800, True), ('der_number_narrow_roundtrip', 3000, True)],
         'assumptions': ['std::io::Write for Vec<u8> / std::io::Read for &[u8] as compiled (part of the checked program)'],
         'trusted_base': KANI_TRUSTED,
         'explanation': 'Loop-free / width-bounded Kani harnesses over ALL u64 lengths, all four tag classes x number < 64, all octets, all i64/u64: read(write(v)) == v, '
